@@ -53,3 +53,8 @@ check("C05",
       "Exploration: for every generated (topology with per-node enabled/connected state, policy settings, request) the plan of the default policy (Plan::new, and raw pick()/fallback()) is checked for: no target named twice, no filtered-out node, no node outside the preferred DC without failover, every other token-owning node present, live replicas first in locality order, live before down, and for LWT routing the reference ring order, identical across iterations and random states.",
       "Trusted: reference walkers and predicates. Latency awareness off; hook-built pool-less nodes with overridden enabled/connected state and sharder.",
       "DESIGN.md 2/C05")
+check("C08",
+      "structure-aware fuzzing by generation and field-aware mutation in isolated worker processes (inflight reproducer file, counting allocator, watchdog); round-trip oracle against the reference encoder for well-formed frames",
+      "Exploration: per generated response model, the well-formed frame (decoded content compared with the model), every truncation point, field-map-directed mutations (lengths/counts/flags/type ids/nesting/custom type strings/header/compression sizes) and random bodies are run through the driver's whole response decoding pipeline under every negotiated-feature/compression combination; oracles: no panic, no abort, no stack overflow, bounded time and bounded allocation relative to input size.",
+      "Trusted: vkit::wire::response encoder, lz4_flex/snap (to produce compressed bodies), counting global allocator, child-process isolation. Bounds: 16 MiB + 512 x input bytes, 1 GiB single request, 2 s + 1 ms/byte, 6 s watchdog (hangs re-measured 3 times). Rows materialised up to 100000 per frame.",
+      "DESIGN.md 2/C08")
